@@ -24,14 +24,14 @@ Print Assumptions C10_below_minimum_discards.
 
 (* not enabled, for the compile-time or for the runtime reason: no Call, no Format, no Sink — in both forms *)
 Theorem C10_disabled_no_evaluation_one_expression : forall cfg th lg sv tag its,
-  gate_open (c_min cfg) sv = false \/ holds th (lg_filter lg) sv = false ->
+  gate_open (c_min cfg) sv = false \/ holds (th (lg_rec lg)) (lg_filter lg) sv = false ->
   exec_one cfg th lg sv tag its = [].
 Proof. exact one_disabled_nothing. Qed.
 Print Assumptions C10_disabled_no_evaluation_one_expression.
 
 Theorem C10_disabled_no_evaluation_named : forall cfg w v lg sv tag its,
   w_slots w v = None ->
-  gate_open (c_min cfg) sv = false \/ holds (w_th w) (lg_filter lg) sv = false ->
+  gate_open (c_min cfg) sv = false \/ holds (w_th w (lg_rec lg)) (lg_filter lg) sv = false ->
   snd (exec_prog cfg w (named_ops v lg sv tag its)) = [].
 Proof. exact named_disabled_nothing. Qed.
 Print Assumptions C10_disabled_no_evaluation_named.
@@ -83,10 +83,10 @@ Print Assumptions C10_live_iff_enabled.
 (* one-expression form: after any prefix of the `<<` chain exactly the prefix's callables have been called and the
    buffer holds exactly the prefix's text — each callable is evaluated before any later item is appended *)
 Theorem C10_chain_prefix : forall th lg sv tag pre,
-  holds th (lg_filter lg) sv = true ->
+  holds (th (lg_rec lg)) (lg_filter lg) sv = true ->
   exists olds,
     one_chain (ss_construct th lg sv tag) [] pre
-    = ((live (mkRecord sv (tag_text tag) []) (message pre), olds), map Call (calls_of pre)).
+    = ((live (mkRecord sv (rec_tag lg tag) []) (message pre), olds), map Call (calls_of pre)).
 Proof. exact one_chain_prefix. Qed.
 Print Assumptions C10_chain_prefix.
 
@@ -106,8 +106,8 @@ Module Examples.
 Import Strings.String.
 Local Open Scope string_scope.
 Definition cfg_warn := mkConfig Warn harness_fmt.
-Definition lg_t0 := mkLogger (FThr 0) 2.
-Definition th_err : thresholds := set_threshold init_thresholds 0 Error.
+Definition lg_t0 := mkLogger 0 true (FThr 0) 2.
+Definition th_err : thresholds := set_threshold init_thresholds 0 0 Error.
 Example C10_ex_compile_time : exec_one cfg_warn init_thresholds lg_t0 Info None [ICall KLambda 1 (B "x"); ICall KStdFunL 2 (B "y")] = [].
 Proof. reflexivity. Qed.
 Example C10_ex_runtime : exec_one cfg_warn th_err lg_t0 Warn None [ICall KFunPtr 1 (B "x"); ICall KFunctor 2 (B "y")] = [].
@@ -116,6 +116,6 @@ Example C10_ex_enabled :
   filter is_call (exec_one cfg_warn th_err lg_t0 Fatal None [ICall KLambda 1 (B "x"); IStr (B "-"); ICall KStdFunL 2 (B "y"); ICall KFunPtr 1 (B "z")])
   = [Call 1; Call 2; Call 1].
 Proof. reflexivity. Qed.
-Example C10_ex_gate_hyp : gate_open Warn Info = false /\ holds th_err (FThr 0) Warn = false.
+Example C10_ex_gate_hyp : gate_open Warn Info = false /\ holds (th_err 0) (FThr 0) Warn = false.
 Proof. split; reflexivity. Qed.
 End Examples.
